@@ -69,6 +69,18 @@ def run(tier):
             byop.setdefault(s["op"], []).append(s)
         for op, lst in sorted(byop.items()):
             pick = lst if len(lst) <= per_op else rng.sample(lst, per_op)
+            # boundary class that sampling must not miss: comparisons of big integers with different limb counts whose
+            # common low limbs agree (only the high limbs of the wider operand differ)
+            if f == "big" and op in ("assert_equal", "is_equal", "lower_than", "sub", "add"):
+                def special(s_):
+                    if len(s_["ins"]) != 2 or len(s_["nbits"]) != 2:
+                        return False
+                    la, lb = [(n + 95) // 96 for n in s_["nbits"]]
+                    a, b = vlib_int(s_["ins"][0]), vlib_int(s_["ins"][1])
+                    m = 1 << (96 * min(la, lb))
+                    return la != lb and a != b and a % m == b % m
+                extra = [s_ for s_ in lst if special(s_) and s_ not in pick]
+                pick = pick + (extra if len(extra) <= 6 else rng.sample(extra, 6))
             indom = [s for s in pick if s["dom"] and k_of(s) <= 12]
             tam = set(id(s) for s in rng.sample(indom, min(len(indom), ntam))) if op not in NO_TAMPER else set()
             for s in pick:
